@@ -116,9 +116,11 @@ def atoms(cond, pol=True):
         ch = inner(n)
         if (op == "&&" and pol) or (op == "||" and not pol):
             return atoms(ch[0], pol) + atoms(ch[1], pol)
-        if op == "!=" and render(strip(ch[1])) == "0":
+        lhs_kind = strip(ch[0]).get("kind")
+        boolish = lhs_kind in ("UnaryOperator", "BinaryOperator", "CallExpr") and not (lhs_kind == "BinaryOperator" and strip(ch[0]).get("opcode") in ("+", "-", "*", "/", "%", ">>", "<<"))
+        if boolish and op == "!=" and render(strip(ch[1])) == "0":
             return atoms(ch[0], pol)
-        if op == "==" and render(strip(ch[1])) == "0":
+        if boolish and op == "==" and render(strip(ch[1])) == "0":
             return atoms(ch[0], not pol)
     return [(render(n), pol)]
 
